@@ -385,6 +385,21 @@ M("c13-wfull-index-unguarded", ["C13"], FIFO,
   '        if True:\n            m.d.comb += w_full.eq(', "R-13c")
 M("c13-produce-in-read-domain", ["C13"], FIFO, 'm.d[self._w_domain] += produce_w_bin.eq(produce_w_nxt)', 'm.d[self._r_domain] += produce_w_bin.eq(produce_w_nxt)', "R-13b")
 M("c13-cdc-wrong-domain", ["C13"], FIFO, 'FFSynchronizer(produce_w_gry, produce_r_gry, o_domain=self._r_domain)', 'FFSynchronizer(produce_w_gry, produce_r_gry, o_domain=self._w_domain)', "R-13b")
+M("c13-gray-encode-shift2", ["C13"], FIFO, "    return val ^ val[1:]", "    return val ^ val[2:]", "R-13e")
+M("c13-gray-decode-forward", ["C13"], FIFO, "    for i in reversed(range(len(val))):", "    for i in range(len(val)):", "R-13e")
+M("c13-gray-decode-prefix-short", ["C13"], FIFO,
+  "    rhs = Const(0)\n    out = [None] * len(val)\n    for i in reversed(range(len(val))):\n        rhs = rhs ^ val[i]\n        out[i] = rhs\n    return Cat(*out)",
+  "    for level in range(ceil_log2(len(val) - 1)):\n        val = val ^ (val >> (1 << level))\n    return val", "R-13e")
+M("c13-benign-gray-decode-prefix", ["C13"], FIFO,
+  "    rhs = Const(0)\n    out = [None] * len(val)\n    for i in reversed(range(len(val))):\n        rhs = rhs ^ val[i]\n        out[i] = rhs\n    return Cat(*out)",
+  "    for level in range(ceil_log2(len(val))):\n        val = val ^ (val >> (1 << level))\n    return val", "silent")
+M("c13-benign-gray-encode-shift", ["C13"], FIFO, "    return val ^ val[1:]", "    return val ^ (val >> 1)", "silent")
+M("c13-rst-cdc-three-stages", ["C13"], FIFO, "AsyncFFSynchronizer(w_rst, r_rst, o_domain=self._r_domain)",
+  "AsyncFFSynchronizer(w_rst, r_rst, o_domain=self._r_domain, stages=3)", "R-13f")
+M("c13-async-ff-default-stages", ["C13"], CDC, 'def __init__(self, i, o, *, o_domain="sync", stages=2, async_edge="pos", max_input_delay=None):',
+  'def __init__(self, i, o, *, o_domain="sync", stages=3, async_edge="pos", max_input_delay=None):', "R-13f")
+M("c13-benign-ptr-cdc-three-stages", ["C13"], FIFO, "FFSynchronizer(produce_w_gry, produce_r_gry, o_domain=self._r_domain)",
+  "FFSynchronizer(produce_w_gry, produce_r_gry, o_domain=self._r_domain, stages=3)", "silent")
 M("c13-binary-crosses", ["C13"], FIFO, 'm.d[self._w_domain] += produce_w_gry.eq(_gray_encode(produce_w_nxt))', 'm.d[self._w_domain] += produce_w_gry.eq(produce_w_nxt)', "R-13b")
 M("c13-do-read-ungated", ["C13"], FIFO, '        do_write = self.w_rdy & self.w_en\n        do_read  = self.r_rdy & self.r_en\n\n        # TODO: extract',
   '        do_write = self.w_rdy & self.w_en\n        do_read  = self.r_en\n\n        # TODO: extract', "R-13a")
@@ -449,6 +464,18 @@ M("c15-struct-offset-before", ["C15"], DAT, "            self._fields[key] = Fie
 M("c15-union-size-sum", ["C15"], DAT, "        return max((field.width for field in self._fields.values()), default=0)", "        return sum(field.width for field in self._fields.values())", "R-15b")
 M("c15-array-getitem-offset", ["C15"], DAT, "            return Field(self._elem_shape, key * Shape.cast(self._elem_shape).width)", "            return Field(self._elem_shape, key)", "R-15b")
 M("c15-layout-const-mask-no-shift", ["C15"], DAT, "            mask = ((1 << cast_field_shape.width) - 1) << field.offset", "            mask = ((1 << cast_field_shape.width) - 1)", "R-15c")
+M("c15-const-stride-pos-by-index", ["C15"], DAT,
+  "                    pos = 0\n                    for index in range(start, stop, stride):\n                        elem_value = (self.__target >> index * elem_width) & ((1 << elem_width) - 1)\n                        value |= elem_value << pos\n                        pos += elem_width",
+  "                    for index in range(start, stop, stride):\n                        elem_value = (self.__target >> index * elem_width) & ((1 << elem_width) - 1)\n                        value |= elem_value << abs(index - start) * elem_width", "R-15e")
+M("c15-const-stride-advance-first", ["C15"], DAT,
+  "                        value |= elem_value << pos\n                        pos += elem_width",
+  "                        pos += elem_width\n                        value |= elem_value << pos", "R-15e")
+M("c15-const-stride-range-unit", ["C15"], DAT,
+  "                    for index in range(start, stop, stride):\n                        elem_value",
+  "                    for index in range(start, stop):\n                        elem_value", "R-15e")
+M("c15-benign-const-stride-enumerate", ["C15"], DAT,
+  "                    pos = 0\n                    for index in range(start, stop, stride):\n                        elem_value = (self.__target >> index * elem_width) & ((1 << elem_width) - 1)\n                        value |= elem_value << pos\n                        pos += elem_width",
+  "                    for k, index in enumerate(range(start, stop, stride)):\n                        elem_value = (self.__target >> index * elem_width) & ((1 << elem_width) - 1)\n                        value |= elem_value << k * elem_width", "silent")
 M("c15-flag-and-as-or", ["C15"], ENU, "        return self.__bitop(other, operator.__and__)", "        return self.__bitop(other, operator.__or__)", "R-15d")
 M("c15-view-signed-not-reinterpreted", ["C15"], DAT, "        if Shape.cast(shape).signed:\n            return value.as_signed()\n        else:\n            return value\n\n    def __getattr__(self, name):\n        \"\"\"Access a field of the underlying value.\n\n        Returns :py:`self[name]`.",
   "        return value\n\n    def __getattr__(self, name):\n        \"\"\"Access a field of the underlying value.\n\n        Returns :py:`self[name]`.", "R-15a")
